@@ -1,3 +1,5 @@
+pub mod c08;
+pub mod c09;
 pub mod c13;
 pub mod c14;
 
@@ -5,6 +7,8 @@ use crate::runner::Prop;
 
 pub fn sweep_prop(id: &str) -> Option<Box<dyn Prop>> {
     Some(match id {
+        "C08" => Box::new(c08::C08::new()),
+        "C09" => Box::new(c09::C09::new()),
         "C13" => Box::new(c13::C13::new()),
         "C14" => Box::new(c14::C14::new()),
         _ => return None,
